@@ -33,7 +33,7 @@ use parser::Parser;
 use pattern::Pattern;
 use quote::ToTokens;
 
-use proc_macro2::{TokenStream, TokenTree};
+use proc_macro2::TokenStream;
 use quote::quote;
 use syn::spanned::Spanned;
 use syn::{parse_quote, LitBool};
@@ -455,18 +455,15 @@ pub fn strip_attributes(input: TokenStream) -> TokenStream {
     for attr in &mut item.attrs {
         if let syn::Meta::List(meta) = &mut attr.meta {
             if meta.path.is_ident("derive") {
-                let mut tokens =
-                    std::mem::replace(&mut meta.tokens, TokenStream::new()).into_iter();
-
-                while let Some(TokenTree::Ident(ident)) = tokens.next() {
-                    let punct = tokens.next();
-
-                    if ident == "Logos" {
-                        continue;
-                    }
-
-                    meta.tokens.extend([TokenTree::Ident(ident)]);
-                    meta.tokens.extend(punct);
+                let parser =
+                    syn::punctuated::Punctuated::<syn::Path, syn::Token![,]>::parse_terminated;
+                if let Ok(paths) = syn::parse::Parser::parse2(parser, meta.tokens.clone()) {
+                    let kept = paths.into_iter().filter(|path| {
+                        path.segments
+                            .last()
+                            .map_or(true, |segment| segment.ident != "Logos")
+                    });
+                    meta.tokens = quote!(#(#kept),*);
                 }
             }
         }
